@@ -10,6 +10,10 @@ import Mathlib.Data.List.Nodup
 import Mathlib.Data.List.Perm.Subperm
 import Mathlib.Tactic.Ring
 import Mathlib.Tactic.Tauto
+import Mathlib.Data.Fintype.Card
+import Mathlib.Data.Fintype.Sets
+import Mathlib.Order.WellFounded
+import Mathlib.Data.Fintype.EquivFin
 namespace Bartiq
 namespace Graph
 
@@ -522,6 +526,124 @@ theorem staticOrder_none_of_cycle (g : G) (a : String) (hc : Before g a a) : sta
   | none => rfl
   | some out => exact absurd (staticOrder_pos g out h a a hc) (Nat.lt_irrefl _)
 
+/-! ### the sorter never gets stuck on an acyclic graph -/
+
+theorem pred_mem_nodes_aux : ∀ (g : G) (acc : List String), acc.Nodup → ∀ kv ∈ g, ∀ p ∈ kv.2,
+    p ∈ g.foldl (fun acc kv => kv.2.foldl addNode (addNode acc kv.1)) acc
+  | [], _, _, _, hkv, _, _ => by cases hkv
+  | kv0 :: g, acc, hnd, kv, hkv, p, hp => by
+    simp only [List.foldl_cons]
+    have hnd' := foldl_addNode_nodup kv0.2 (addNode acc kv0.1) (addNode_nodup _ _ hnd)
+    rcases List.mem_cons.mp hkv with rfl | hm
+    · apply (nodes_aux g _ hnd').2.1
+      rw [mem_foldl_addNode]; exact Or.inr hp
+    · exact pred_mem_nodes_aux g _ hnd' kv hm p hp
+
+theorem edge_source_mem_nodes (g : G) (e : String × String) (h : e ∈ edges g) : e.1 ∈ nodes g := by
+  unfold edges at h
+  simp only [List.mem_flatMap, List.mem_map] at h
+  obtain ⟨kv, hkv, p, hp, rfl⟩ := h
+  exact pred_mem_nodes_aux g [] List.nodup_nil kv hkv p hp
+
+/-- with enough fuel the loop ends in a state with nothing ready -/
+theorem loop_ends (g : G) : ∀ (fuel : Nat) (cnt : Dict Nat) (ready acc : List String), Inv g cnt ready acc →
+    (nodes g).length < acc.length + fuel →
+    ∃ cnt', Inv g cnt' [] (loop g fuel cnt ready acc)
+  | 0, cnt, ready, acc, h, hf => by
+    exfalso
+    have hsub : acc.Subperm (nodes g) :=
+      List.subperm_of_subset (List.nodup_append.mp h.nodup).1 (fun x hx => h.sub x (List.mem_append_left _ hx))
+    have := hsub.length_le
+    omega
+  | fuel + 1, cnt, ready, acc, h, hf => by
+    simp only [loop]
+    split
+    · rename_i he
+      have : ready = [] := by simpa using he
+      subst this
+      exact ⟨cnt, h⟩
+    · rename_i he
+      have hpos : 0 < ready.length := by
+        cases ready with
+        | nil => simp at he
+        | cons _ _ => simp
+      exact loop_ends g fuel _ _ _ (inv_step g cnt ready acc h) (by rw [List.length_append]; omega)
+
+/-- in a final state every node that was not output still waits for a predecessor that was not output either -/
+theorem stuck_has_pred (g : G) (cnt : Dict Nat) (acc : List String) (h : Inv g cnt [] acc) (s : String)
+    (hs : s ∈ nodes g) (hns : s ∉ acc) : ∃ p, p ∈ nodes g ∧ p ∉ acc ∧ (p, s) ∈ edges g := by
+  have hnd : acc.Nodup := by simpa using h.nodup
+  have hz : cv cnt s ≠ 0 := fun e => hns (by simpa using (h.zero_iff s hs).mpr e)
+  have hc := h.cnt_eq s hs
+  by_contra hcon
+  -- every predecessor of s was output: then all registrations are accounted for and the counter is 0
+  have hall : ∀ e ∈ edges g, e.2 = s → e.1 ∈ acc := by
+    intro e he hes
+    by_contra hne
+    exact hcon ⟨e.1, edge_source_mem_nodes g e he, hne, by rw [← hes]; exact he⟩
+  have heq : (acc.flatMap (succs g)).count s = npred g s := by
+    rw [count_flatMap_succs g s acc hnd, npred_eq]
+    apply List.countP_congr
+    intro e he
+    simp only [Bool.and_eq_true, decide_eq_true_eq]
+    exact ⟨fun h => h.2, fun h => ⟨hall e he h, h⟩⟩
+  omega
+
+/-- **completeness**: if `static_order()` fails, the graph has a cycle -/
+theorem cycle_of_staticOrder_none (g : G) (h : staticOrder g = none) : ∃ a, Before g a a := by
+  by_contra hno
+  have hno' : ∀ a, ¬ Before g a a := fun a ha => hno ⟨a, ha⟩
+  -- the initial state satisfies the invariant
+  have hinit : Inv g ((nodes g).map fun n => (n, npred g n)) ((nodes g).filter fun n => npred g n = 0) [] := by
+    refine ⟨?_, ?_, ?_, ?_, rfl⟩
+    · simpa using (nodes_nodup g).filter _
+    · intro x hx
+      simp only [List.nil_append, List.mem_filter] at hx
+      exact hx.1
+    · intro s hs
+      simp [cv, get?_map_pair (npred g) (nodes g) s hs]
+    · intro s hs
+      simp [cv, get?_map_pair (npred g) (nodes g) s hs, hs]
+  obtain ⟨cnt', hfin⟩ := loop_ends g ((nodes g).length + 1) _ _ _ hinit (by simp)
+  -- the result is shorter than the node list
+  unfold staticOrder at h
+  simp only at h
+  split at h
+  · cases h
+  · rename_i hlen
+    set out := loop g ((nodes g).length + 1) ((nodes g).map fun n => (n, npred g n)) ((nodes g).filter fun n => npred g n = 0) [] with hout
+    have hnd : out.Nodup := by simpa using hfin.nodup
+    have hsubset : ∀ x ∈ out, x ∈ nodes g := fun x hx => hfin.sub x (by simpa using hx)
+    -- some node was not output
+    have hex : ∃ s, s ∈ nodes g ∧ s ∉ out := by
+      by_contra hall
+      have hall' : ∀ s ∈ nodes g, s ∈ out := fun s hs => by
+        by_contra hn; exact hall ⟨s, hs, hn⟩
+      have h1 := (List.subperm_of_subset hnd hsubset).length_le
+      have h2 := (List.subperm_of_subset (nodes_nodup g) hall').length_le
+      exact hlen (Nat.le_antisymm h1 h2)
+    obtain ⟨s0, hs0, hs0n⟩ := hex
+    -- the relation "is (transitively) a predecessor of" on the nodes that were not output is well founded (finite, transitive,
+    -- irreflexive by assumption), so it has a minimal element — which nevertheless has a predecessor among them
+    let R := (nodes g).filter fun x => x ∉ out
+    let r : {x // x ∈ R} → {x // x ∈ R} → Prop := fun x y => Before g x.1 y.1
+    have : IsTrans {x // x ∈ R} r := ⟨fun _ _ _ h1 h2 => Before.trans h1 h2⟩
+    have : Std.Irrefl r := ⟨fun x hx => hno' x.1 hx⟩
+    have : Fintype {x // x ∈ R} := List.Subtype.fintype R
+    have : Finite {x // x ∈ R} := Finite.of_fintype _
+    have wf : WellFounded r := Finite.wellFounded_of_trans_of_irrefl r
+    have hs0R : s0 ∈ R := by simp [R, hs0, hs0n]
+    obtain ⟨m, _, hmin⟩ := wf.has_min Set.univ ⟨⟨s0, hs0R⟩, trivial⟩
+    have hmR := m.2
+    simp only [R, List.mem_filter, decide_eq_true_eq] at hmR
+    obtain ⟨p, hp, hpn, hedge⟩ := stuck_has_pred g cnt' out hfin m.1 hmR.1 hmR.2
+    have hpR : p ∈ R := by simp [R, hp, hpn]
+    exact hmin ⟨p, hpR⟩ trivial (Before.edge hedge)
+
+/-- `static_order()` fails EXACTLY on the graphs with a cycle -/
+theorem staticOrder_none_iff (g : G) : staticOrder g = none ↔ ∃ a, Before g a a :=
+  ⟨cycle_of_staticOrder_none g, fun ⟨a, h⟩ => staticOrder_none_of_cycle g a h⟩
+
 end Graph
 
 /-! ### `_topological_sort` of an aggregation dictionary -/
@@ -610,6 +732,38 @@ theorem before_of_decomposesInto (d : AggDict) {r t : String} (h : DecomposesInt
     simp only [List.mem_eraseDups, List.mem_filter]
     exact ⟨ht, hc⟩
   | trans _ _ ih1 ih2 => exact Graph.Before.trans ih2 ih1
+
+theorem Dict.get?_of_mem_nodup {α : Type} : ∀ (d : Dict α) (k : String) (v : α), d.keys.Nodup → (k, v) ∈ d → d.get? k = some v
+  | [], _, _, _, h => by cases h
+  | (a, w) :: rest, k, v, hnd, h => by
+    simp only [Dict.keys, List.map_cons, List.nodup_cons] at hnd
+    rcases List.mem_cons.mp h with h | h
+    · simp only [Prod.mk.injEq] at h
+      obtain ⟨rfl, rfl⟩ := h
+      simp [Dict.get?_cons]
+    · have hne : ¬ a = k := by
+        intro e; subst e
+        exact hnd.1 (List.mem_map.mpr ⟨(a, v), h, rfl⟩)
+      simp only [Dict.get?_cons, hne, if_false]
+      exact Dict.get?_of_mem_nodup rest k v hnd.2 h
+
+theorem decomposesInto_of_before (d : AggDict) (hk : d.keys.Nodup) {t r : String} (h : Graph.Before (aggGraph d) t r) :
+    DecomposesInto d r t := by
+  induction h with
+  | edge he =>
+    rename_i t r
+    simp only [Graph.edges, aggGraph, List.mem_flatMap, List.mem_map] at he
+    obtain ⟨kv, ⟨e, hed, rfl⟩, p, hp, heq⟩ := he
+    simp only [Prod.mk.injEq] at heq
+    obtain ⟨rfl, rfl⟩ := heq
+    simp only [List.mem_eraseDups, List.mem_filter] at hp
+    exact DecomposesInto.step (Dict.get?_of_mem_nodup d e.1 e.2 hk hed) hp.1 hp.2
+  | trans _ _ ih1 ih2 => exact DecomposesInto.trans ih2 ih1
+
+/-- `_topological_sort` fails EXACTLY on the cyclic dictionaries -/
+theorem aggOrder_none_iff (d : AggDict) (hk : d.keys.Nodup) : aggOrder d = none ↔ ∃ r, DecomposesInto d r r := by
+  rw [aggOrder_eq, Graph.staticOrder_none_iff]
+  exact ⟨fun ⟨a, h⟩ => ⟨a, decomposesInto_of_before d hk h⟩, fun ⟨r, h⟩ => ⟨r, before_of_decomposesInto d h⟩⟩
 
 /-- **a cyclic dictionary has no expansion order** -/
 theorem aggOrder_none_of_cycle (d : AggDict) (r : String) (h : DecomposesInto d r r) : aggOrder d = none := by
